@@ -699,7 +699,7 @@ func graphBudget(r *ev.Run) time.Duration {
 	if r.Quick() {
 		return 10 * time.Minute
 	}
-	return 30 * time.Minute
+	return 12 * time.Minute
 }
 
 func run(r *ev.Run, id string) {
